@@ -155,6 +155,50 @@ func init() {
 	reg("os.ReadFile", readFile)
 	reg("io/ioutil.ReadFile", readFile)
 
+	// ---- go-charset: ISO-8859-1 code page built directly (the registry is JSON + embedded files) ----
+	isLatin1 := func(name string) bool {
+		n := strings.ToLower(strings.ReplaceAll(name, "_", "-"))
+		switch n {
+		case "iso-8859-1", "latin1", "latin-1", "iso8859-1", "l1", "ibm819", "cp819", "iso-ir-100", "csisolatin1", "iso-8859-1:1987":
+			return true
+		}
+		return false
+	}
+	const csPkg = "github.com/paulrosania/go-charset/charset"
+	reg(csPkg+".TranslatorFrom", func(e *Exec, args []Value, fn *ssa.Function) Value {
+		name := e.goString(args[0])
+		if !isLatin1(name) {
+			e.unsupported("go-charset model only covers ISO-8859-1, got " + name)
+		}
+		tt := e.pkgType(csPkg, "translateFromCodePage")
+		o := e.allocZero(tt, "translateFromCodePage")
+		tab := e.newObj(256, "latin1 byte2rune")
+		tab.base = true // read-only table: symbolic lookups use the ROM encoding
+		for i := range tab.cells {
+			tab.cells[i] = e.tc.Const(32, uint64(i))
+		}
+		fp, ft := e.fieldPtr(Ptr{o: o}, tt, "byte2rune")
+		e.store(fp, ft, Ptr{o: tab})
+		return Tuple{Iface{t: types.NewPointer(tt), v: Ptr{o: o}}, Iface{}}
+	})
+	reg(csPkg+".TranslatorTo", func(e *Exec, args []Value, fn *ssa.Function) Value {
+		name := e.goString(args[0])
+		if !isLatin1(name) {
+			e.unsupported("go-charset model only covers ISO-8859-1, got " + name)
+		}
+		tt := e.pkgType(csPkg, "translateToCodePage")
+		o := e.allocZero(tt, "translateToCodePage")
+		it := e.pkgType(csPkg, "toCodePageInfo")
+		ip, _ := e.fieldPtr(Ptr{o: o}, tt, "toCodePageInfo")
+		sp, st := e.fieldPtr(ip, it, "same")
+		e.store(sp, st, e.tc.Const(32, 256))
+		mp, mt := e.fieldPtr(ip, it, "rune2byte")
+		mtt := mt.Underlying().(*types.Map)
+		e.nobj++
+		e.store(mp, mt, &MapObj{id: e.nobj, kt: mtt.Key(), vt: mtt.Elem()})
+		return Tuple{Iface{t: types.NewPointer(tt), v: Ptr{o: o}}, Iface{}}
+	})
+
 	// ---- errors ----
 	reg("errors.Is", func(e *Exec, args []Value, fn *ssa.Function) Value {
 		return e.tc.Bool(e.errorsIs(args[0].(Iface), args[1].(Iface), 0))
